@@ -8,6 +8,7 @@ package absnfs
 import (
 	"container/list"
 	"os"
+	"strings"
 	"sync"
 	"sync/atomic"
 	"time"
@@ -310,6 +311,22 @@ func (c *AttrCache) Invalidate(path string) {
 
 	c.removeFromAccessLog(path)
 	delete(c.cache, path)
+}
+
+// InvalidateTree removes the entry for path and every entry below it. Used
+// when a directory is renamed: the cached attributes of its children describe
+// paths that no longer exist.
+func (c *AttrCache) InvalidateTree(path string) {
+	c.mu.Lock()
+	defer c.mu.Unlock()
+
+	prefix := strings.TrimSuffix(path, "/") + "/"
+	for p := range c.cache {
+		if p == path || strings.HasPrefix(p, prefix) {
+			c.removeFromAccessLog(p)
+			delete(c.cache, p)
+		}
+	}
 }
 
 // Clear removes all entries from the cache
@@ -628,6 +645,20 @@ func (c *DirCache) Invalidate(path string) {
 
 	c.removeFromAccessList(path)
 	delete(c.entries, path)
+}
+
+// InvalidateTree removes the cached listing of path and of every directory below it.
+func (c *DirCache) InvalidateTree(path string) {
+	c.mu.Lock()
+	defer c.mu.Unlock()
+
+	prefix := strings.TrimSuffix(path, "/") + "/"
+	for p := range c.entries {
+		if p == path || strings.HasPrefix(p, prefix) {
+			c.removeFromAccessList(p)
+			delete(c.entries, p)
+		}
+	}
 }
 
 // Clear removes all entries from the cache
